@@ -1,5 +1,6 @@
 import Dashu.Model.Panic.Guards
 import Dashu.Model.Int.Repr
+import Mathlib.Tactic.Linarith
 /-
   C16 (2): the entry guards mirrored from the code fail with kind `k` iff the documentation names `k`.
   One theorem per mirrored guard; the statements quantify over ALL arguments.
@@ -365,5 +366,219 @@ theorem guardFUlp_iff (W : Nat) (a : FArg) (k : Kind) (hc : a.canonical) (hm : a
   unfold guardFUlp
   rw [err_iff]
   simp only [Option.some.injEq, firstOf_one, decide_eq_true_eq]
+
+-- ---- guards added by the fix: commits c27ca7f, 65edb1e, 0ffa05d, d9f681e, b0e87a3
+
+theorem finite_iff (a : FArg) : a.isInf = false ↔ (a.signif = 0 → a.exp = 0) := by
+  unfold FArg.isInf
+  simp only [decide_eq_false_iff_not, not_and, not_not]
+
+theorem isZero_of_finite (a : FArg) (h : a.isInf = false) : a.isZero = true ↔ a.signif = 0 := by
+  rw [finite_iff] at h
+  unfold FArg.isZero
+  simp only [decide_eq_true_eq]
+  exact ⟨fun h1 => h1.1, fun h1 => ⟨h1, h h1⟩⟩
+
+theorem isNeg_of_finite (a : FArg) (h : a.isInf = false) : a.isNeg = true ↔ a.signif < 0 := by
+  rw [finite_iff] at h
+  unfold FArg.isNeg
+  simp only [decide_eq_true_eq]
+  constructor
+  · rintro (h1 | ⟨h1, h2⟩)
+    · exact h1
+    · have := h h1; omega
+  · intro h1; exact Or.inl h1
+
+theorem not_inf_of (a : FArg) (h : ¬ a.isInf = true) : a.isInf = false := by
+  cases h' : a.isInf <;> simp_all
+
+/-- `UBig::is_multiple_of_const` (after c27ca7f) -/
+theorem guardUIsMultipleOfConst_iff (W a d : Nat) (k : Kind) (hd : d < 2 ^ (2 * W)) :
+    guardIsMultipleOfConst d = .error k ↔ documented W .uIsMultipleOfConst [.int a, .int d] = some k := by
+  have hv : verdict W .uIsMultipleOfConst [.int a, .int d] =
+      if (a:Int) < 0 ∨ (d:Int) < 0 ∨ (d:Int) ≥ 2 ^ (2 * W) then none else some (divZero d) := rfl
+  have hd' : ¬ ((d:Int) ≥ 2 ^ (2 * W)) := by
+    have : ((d:Nat):Int) < ((2 ^ (2 * W) : Nat) : Int) := by exact_mod_cast hd
+    push_cast at this; omega
+  have hn : ¬ ((a:Int) < 0 ∨ (d:Int) < 0 ∨ (d:Int) ≥ 2 ^ (2 * W)) := by
+    intro h; rcases h with h | h | h
+    · omega
+    · omega
+    · exact hd' h
+  rw [documented_iff, hv, if_neg hn]
+  unfold guardIsMultipleOfConst
+  rw [err_iff]
+  simp only [Option.some.injEq, divZero_iff]
+  arith_iff
+
+/-- `IBig::is_multiple_of_const` (after c27ca7f) -/
+theorem guardIIsMultipleOfConst_iff (W : Nat) (a : Int) (d : Nat) (k : Kind) (hd : d < 2 ^ (2 * W)) :
+    guardIsMultipleOfConst d = .error k ↔ documented W .iIsMultipleOfConst [.int a, .int d] = some k := by
+  have hv : verdict W .iIsMultipleOfConst [.int a, .int d] =
+      if (d:Int) < 0 ∨ (d:Int) ≥ 2 ^ (2 * W) then none else some (divZero d) := rfl
+  have hd' : ¬ ((d:Int) ≥ 2 ^ (2 * W)) := by
+    have : ((d:Nat):Int) < ((2 ^ (2 * W) : Nat) : Int) := by exact_mod_cast hd
+    push_cast at this; omega
+  have hn : ¬ ((d:Int) < 0 ∨ (d:Int) ≥ 2 ^ (2 * W)) := by
+    intro h; rcases h with h | h
+    · omega
+    · exact hd' h
+  rw [documented_iff, hv, if_neg hn]
+  unfold guardIsMultipleOfConst
+  rw [err_iff]
+  simp only [Option.some.injEq, divZero_iff]
+  arith_iff
+
+/-- `FBig::split_at_point` (after 65edb1e) -/
+theorem guardFSplitAtPoint_iff (W : Nat) (a : FArg) (k : Kind) (hc : a.canonical) (hm : a.moderate) :
+    guardFSplitAtPoint a = .error k ↔ documented W .fSplitAtPoint [.flt a] = some k := by
+  have hv : verdict W .fSplitAtPoint [.flt a] =
+      if ¬ a.canonical then none else if ¬ a.moderate then some .unspecified
+      else if a.isInf then some (.panics .infinite)
+      else if a.exp ≤ 2 ^ 20 then some .returns else some .unspecified := rfl
+  rw [documented_iff, hv, if_neg (by simpa using hc), if_neg (by simpa using hm)]
+  unfold guardFSplitAtPoint assertFinite
+  rw [err_iff]
+  by_cases h1 : a.isInf = true
+  · simp [h1]
+  · have ha : a.isInf = false := not_inf_of a h1
+    simp only [ha, Bool.false_eq_true, if_false, false_and, false_iff]
+    split <;> simp
+
+/-- float `div_euclid` / `rem_euclid` (after 0ffa05d): finite operands, then a non-zero divisor -/
+theorem guardFEuclid_iff (W : Nat) (a b : FArg) (k : Kind) (op : Op) (hop : op ∈ [Op.fDivEuclid, .fRemEuclid])
+    (hc : (a.canonical ∧ b.canonical ∧ sameKind a b)) (hm : (a.moderate ∧ b.moderate)) :
+    guardFEuclid W a b = .error k ↔ documented W op [.flt a, .flt b] = some k := by
+  have hv : verdict W op [.flt a, .flt b] =
+      if ¬ (a.canonical ∧ b.canonical ∧ sameKind a b) then none
+      else if ¬ (a.moderate ∧ b.moderate) then some .unspecified
+      else some (firstOf [(a.isInf ∨ b.isInf, .infinite), (b.isZero, .divideByZero)]) := by
+    simp at hop; rcases hop with h | h <;> subst h <;> rfl
+  rw [documented_iff, hv, if_neg (by simpa using hc), if_neg (by simpa using hm)]
+  simp only [Option.some.injEq, firstOf_two, decide_eq_true_eq, decide_eq_false_iff_not]
+  unfold guardFEuclid assertFiniteOperands
+  by_cases h1 : (a.isInf = true ∨ b.isInf = true)
+  · simp [h1, bind, Except.bind]
+  · have hb : b.isInf = false := not_inf_of b (fun h => h1 (Or.inr h))
+    simp only [h1, if_false, bind, Except.bind, false_and, false_or, not_false_eq_true, true_and]
+    rw [guardDivByZero_err, isZero_of_finite b hb]
+    constructor <;> rintro ⟨h, hk⟩ <;> exact ⟨by omega, hk⟩
+
+/-- float `powf` (after d9f681e): finite operands, limited precision, the returning shortcuts, negative base -/
+theorem guardFPowf_iff (W : Nat) (a b : FArg) (k : Kind)
+    (hc : (a.canonical ∧ b.canonical ∧ sameKind a b)) (hm : (a.moderate ∧ b.moderate)) :
+    guardFPowf a b = .error k ↔ documented W .fPowf [.flt a, .flt b] = some k := by
+  have hv : verdict W .fPowf [.flt a, .flt b] =
+      if ¬ (a.canonical ∧ b.canonical ∧ sameKind a b) then none
+      else if ¬ (a.moderate ∧ b.moderate) then some .unspecified
+      else if a.isInf ∨ b.isInf then some (.panics .infinite)
+      else if maxPrec a b = 0 then some (.panics .unlimitedPrecision)
+      else if b.isZero ∨ (b.signif = 1 ∧ b.exp = 0) then some .returns
+      else if a.isNeg then some (.panics .powNegativeBase)
+      else if a.magAtMostPow2 (2 ^ 30) ∧ b.magAtMostPow2 30 ∧ a.exp ≥ -(2 ^ 30) then some .returns
+      else some .unspecified := rfl
+  rw [documented_iff, hv, if_neg (by simpa using hc), if_neg (by simpa using hm)]
+  unfold guardFPowf assertFiniteOperands assertLimitedPrecision maxPrec
+  by_cases h1 : (a.isInf = true ∨ b.isInf = true)
+  · simp [h1, bind, Except.bind]
+  · have ha : a.isInf = false := not_inf_of a (fun h => h1 (Or.inl h))
+    have hb : b.isInf = false := not_inf_of b (fun h => h1 (Or.inr h))
+    by_cases h2 : max a.prec b.prec = 0
+    · simp [h1, h2, bind, Except.bind]
+    · simp only [h1, h2, if_false, bind, Except.bind]
+      by_cases h3 : b.signif = 0
+      · have : b.isZero = true := (isZero_of_finite b hb).mpr h3
+        simp [h3, this]
+      · have hz : ¬ (b.isZero = true) := fun h => h3 ((isZero_of_finite b hb).mp h)
+        by_cases h4 : b.signif = 1 ∧ b.exp = 0
+        · simp [h3, h4]
+        · simp only [h3, h4, hz, if_false, false_or]
+          by_cases h5 : a.signif = 0
+          · have : ¬ (a.isNeg = true) := fun h => by have := (isNeg_of_finite a ha).mp h; omega
+            simp only [h5, this, if_true, if_false]
+            repeat' split
+            all_goals simp_all
+          · by_cases h6 : a.signif < 0
+            · have : a.isNeg = true := (isNeg_of_finite a ha).mpr h6
+              simp [h5, h6, this]
+            · have : ¬ (a.isNeg = true) := fun h => h6 ((isNeg_of_finite a ha).mp h)
+              simp only [h5, h6, this, if_false]
+              repeat' split
+              all_goals simp_all
+
+theorem canonical_base (a : FArg) (h : a.canonical = true) : a.base = 2 ∨ a.base = 10 := by
+  unfold FArg.canonical at h
+  simp only [Bool.and_eq_true, Bool.or_eq_true, decide_eq_true_eq] at h
+  rcases h.1 with h1 | h1
+  · exact Or.inl h1.1
+  · exact Or.inr h1.1
+
+/-- float `ln` (after b0e87a3): the domain guard `x ≤ 0` is now in the code -/
+theorem guardFLn_iff (W : Nat) (a : FArg) (k : Kind) (hc : a.canonical) (hm : a.moderate) :
+    guardFLn a = .error k ↔ documented W .fLn [.flt a] = some k := by
+  have hv : verdict W .fLn [.flt a] =
+      if ¬ a.canonical then none else if ¬ a.moderate then some .unspecified
+      else some (firstOf [(a.isInf, .infinite), (a.prec = 0, .unlimitedPrecision),
+                          (a.isZero ∨ a.isNeg, .logInvalid)]) := rfl
+  rw [documented_iff, hv, if_neg (by simpa using hc), if_neg (by simpa using hm)]
+  simp only [Option.some.injEq, firstOf_three, decide_eq_true_eq, decide_eq_false_iff_not]
+  unfold guardFLn assertFinite assertLimitedPrecision
+  by_cases h1 : a.isInf = true
+  · simp [h1, bind, Except.bind]
+  · have ha : a.isInf = false := not_inf_of a h1
+    by_cases h2 : a.prec = 0
+    · simp [h1, h2, bind, Except.bind]
+    · simp only [ha, h2, if_false, bind, Except.bind, Bool.false_eq_true, false_and, false_or, true_and,
+        not_false_eq_true]
+      rw [isZero_of_finite a ha, isNeg_of_finite a ha]
+      by_cases h3 : a.signif = 1 ∧ a.exp = 0
+      · simp only [h3, and_self, if_true]
+        constructor
+        · intro h; cases h
+        · rintro ⟨h, _⟩; omega
+      · simp only [h3, if_false]
+        rw [err_iff]
+
+/-- float `ln_1p` (after b0e87a3): the domain guard `x ≤ -1` -/
+theorem guardFLn1p_iff (W : Nat) (a : FArg) (k : Kind) (hc : a.canonical) (hm : a.moderate) :
+    guardFLn1p a = .error k ↔ documented W .fLn1p [.flt a] = some k := by
+  have hv : verdict W .fLn1p [.flt a] =
+      if ¬ a.canonical then none else if ¬ a.moderate then some .unspecified
+      else some (firstOf [(a.isInf, .infinite), (a.prec = 0, .unlimitedPrecision),
+                          (a.isNeg ∧ (a.exp ≥ 0 ∨ a.signif.natAbs ≥ a.base ^ (-a.exp).toNat), .logInvalid)]) := rfl
+  rw [documented_iff, hv, if_neg (by simpa using hc), if_neg (by simpa using hm)]
+  simp only [Option.some.injEq, firstOf_three, decide_eq_true_eq, decide_eq_false_iff_not]
+  unfold guardFLn1p assertFinite assertLimitedPrecision
+  by_cases h1 : a.isInf = true
+  · simp [h1, bind, Except.bind]
+  · have ha : a.isInf = false := not_inf_of a h1
+    by_cases h2 : a.prec = 0
+    · simp [h1, h2, bind, Except.bind]
+    · simp only [ha, h2, if_false, bind, Except.bind, Bool.false_eq_true, false_and, false_or, true_and,
+        not_false_eq_true]
+      rw [isNeg_of_finite a ha]
+      have hbase : 1 ≤ a.base := by rcases canonical_base a hc with h | h <;> omega
+      by_cases h3 : a.signif = 0
+      · simp only [h3, if_true]
+        constructor
+        · intro h; cases h
+        · rintro ⟨⟨h, _⟩, _⟩; omega
+      · simp only [h3, if_false]
+        rw [err_iff]
+        -- leNegOne ↔ the documentation's integer formulation, for a negative significand
+        have key : a.signif < 0 →
+            (leNegOne a = true ↔ (a.exp ≥ 0 ∨ a.signif.natAbs ≥ a.base ^ (-a.exp).toNat)) := by
+          intro hneg
+          unfold leNegOne
+          by_cases he : a.exp ≥ 0
+          · have hp : 1 ≤ a.base ^ a.exp.toNat := Nat.one_le_pow _ _ hbase
+            simp only [he, if_true, decide_eq_true_eq, true_or, iff_true]
+            have hp' : (1:Int) ≤ ((a.base ^ a.exp.toNat : Nat) : Int) := by exact_mod_cast hp
+            nlinarith
+          · simp only [he, if_false, decide_eq_true_eq, false_or]
+            omega
+        constructor
+        · rintro ⟨⟨hneg, hle⟩, hk⟩; exact ⟨⟨hneg, (key hneg).mp hle⟩, hk⟩
+        · rintro ⟨⟨hneg, hle⟩, hk⟩; exact ⟨⟨hneg, (key hneg).mpr hle⟩, hk⟩
 
 end Dashu.Proofs.Panic
